@@ -248,6 +248,14 @@ def run_reset(ck: Check):
             if not alpha > 0:
                 alpha = 0.05
             ops = []
+            if rng.random() < 0.6:
+                # boundary on purpose: alpha EXACTLY the p-value of a compare that is certain to happen
+                r0, x0 = rng.randrange(2), rng.randrange(3)
+                pb = float(ptab[(r0, x0)].p_value)
+                if pb > 0 and not math.isnan(pb):
+                    alpha = pb
+                    ops = [("F", r0), ("C", x0)]
+                    ck.count("reset_boundary_cases")
             for _ in range(rng.choice([4, 8, 12])):
                 k = rng.random()
                 ops.append(("F", rng.randrange(2)) if k < 0.3 else (("R",) if k < 0.4 else ("C", rng.randrange(3))))
